@@ -111,7 +111,8 @@ def run(ctx):
             n = rng.randrange(1, 7)
             pkts = []
             for _ in range(n):
-                pid = rng.choice(sorted(KNOWN) + [2, 5, 0x55, 129, 16384, 2 ** 28, rng.randrange(2 ** 31)])
+                pid = rng.choice(sorted(KNOWN) + [2, 5, 0x55, 129, 16384, 2 ** 28, rng.randrange(2 ** 31)]
+                                 + [k_ + 1 for k_ in KNOWN if k_ + 1 not in KNOWN] + [max(KNOWN) + 2, 200, 0x3FFF])
                 t = thr if (thr is not None and thr > 0) else 64
                 size = rng.choice([0, 1, 2, max(0, t - 3), max(0, t - 2), max(0, t - 1), t, t + 1, 100,
                                    rng.randrange(0, 700)] + ([rng.randrange(2000, 8192)] if rng.random() < 0.15 else []))
